@@ -55,6 +55,11 @@ func crdtScenarios(tier string) []crdtScenario {
 			mk("plain N=3 L=3 pre-created", 3, 3, true, nil),
 			mk("plain N=2 L=3 with create", 2, 3, false, nil),
 			mk("indexed register N=2 L=4 pre-created", 2, 4, true, indexed),
+			// deep DAG shapes (a merge commit next to a head with its own ancestors need 3 writers and 5
+			// commits): one operation kind only, so that the depth stays affordable
+			mk("counter only N=3 L=5 pre-created", 3, 5, true, func(c *crdtx.Config) {
+				c.Ops = []crdtx.OpKind{{Name: "inc", Field: "c", Kind: "inc"}}
+			}),
 		}
 	}
 	return []crdtScenario{
